@@ -262,6 +262,7 @@ def run(ctx):
     ctx.cov["input_distribution"] = dist
     ctx.sample({"dims": cases[0][0], "rep": cases[0][1], "tidy": cases[0][2]})
     qobj_corr(ctx, rng, good, 300 if ctx.quick else 3000)
+    state_corr(ctx, rng, 300 if ctx.quick else 3000)
     oracle(ctx, rng, 150 if ctx.quick else 2500)
     ctx.cov["explanation"] = (
         "Theorems of Props/C02.v (equality is structural and hash-consistent, type/shape "
@@ -403,6 +404,162 @@ def qobj_corr(ctx, rng, good, n):
                     ctx.violation("qobj." + key[0], "matrix",
                                   "matrix of Qobj.%s is not the NumPy expression on the operands" % key[0],
                                   {"case": key, "got": np.array2string(got), "want": np.array2string(np.array(want))})
+
+
+# ------------------------- overlap / matrix_element / __call__: dims rules
+def _rand_arr(rng, sh):
+    return np.array([[complex(rng.randint(-3, 3), rng.randint(-3, 3)) for _ in range(sh[1])]
+                     for _ in range(sh[0])])
+
+
+def state_corr(ctx, rng, n):
+    """Qobj.overlap, Qobj.matrix_element and Qobj.__call__ against the model's
+    dims rule (accepted exactly when the labels compose) and against NumPy."""
+    import qutip
+    spaces = [[2], [3], [2, 2], [4], [2, 3], [3, 2], [6], [1, 2], [2, 1, 2], [1], [2, 2, 2], [8]]
+
+    def ones(h):
+        return [1] * len(h) if rng.random() < 0.5 else [1]
+
+    def mk(kind):
+        h, g = rng.choice(spaces), rng.choice(spaces)
+        if rng.random() < 0.6:
+            g = list(h)
+        if kind == "ket":
+            return [h, ones(h)], None
+        if kind == "bra":
+            return [ones(h), h], None
+        if kind == "oper":
+            return [h, g], None
+        if kind == "super":
+            h2, g2 = (list(h), list(g)) if rng.random() < 0.6 else (rng.choice(spaces), rng.choice(spaces))
+            return [[h, g], [h2, g2]], rng.choice([None, "super", "super", "choi"])
+        if kind == "opket":
+            return [[h, g], [1]], rng.choice([None, "super"])
+        raise KeyError(kind)
+
+    def derive(src, kind):
+        """an operand whose labels compose with `src` (a dims list), mostly"""
+        lst = src[0]
+        flat = isinstance(lst[0][0], int)
+        if rng.random() < 0.3:
+            return mk(kind)
+        if flat:
+            to, frm = lst
+        else:               # super: oper dims it acts on
+            to, frm = lst[1]
+        if kind == "ket":
+            return [list(frm if rng.random() < 0.7 else to), ones(frm)], None
+        if kind == "bra":
+            return [ones(to), list(to if rng.random() < 0.7 else frm)], None
+        if kind == "oper":
+            return [list(to), list(frm)], None
+        return mk(kind)
+
+    def qobj(spec):
+        lst, rep = spec
+        D = qutip.core.dimensions.Dimensions(json.loads(json.dumps(lst)), rep=rep)
+        if np.prod(D.shape) > 4096:
+            return None, None
+        arr = _rand_arr(rng, D.shape)
+        q = qutip.Qobj(arr, dims=D).to(rng.choice(["dense", "csr", "dia"]))
+        return q, arr
+
+    def vec(q, a):
+        return a if q.isket else a.conj().T
+
+    def as_op(q, a):
+        if q.isoper:
+            return a
+        v = vec(q, a)
+        return v @ v.conj().T
+
+    exprs, thunks, keys = [], [], []
+    for _ in range(n):
+        op = rng.choice(["overlap", "overlap", "matel", "call", "call"])
+        try:
+            if op == "overlap":
+                sa = mk(rng.choice(["ket", "bra", "oper", "oper", "super", "opket"]))
+                sb = derive(sa, rng.choice(["ket", "bra", "oper"]))
+                (qa, a), (qb, b) = qobj(sa), qobj(sb)
+                if qa is None or qb is None:
+                    continue
+                coq = ("match %s, %s with Ok x, Ok y => qobj_overlap x y | _, _ => ORaise OutOfFuel end"
+                       % (dims_expr(sa[0], sa[1], True), dims_expr(sb[0], sb[1], True)))
+                th = (lambda qa=qa, qb=qb: qa.overlap(qb))
+                # vectors: <self|other>, except ket.overlap(bra) which qutip defines (and its
+                # test-suite pins) as the conjugate, i.e. the natural product <other|self>
+                ref = (lambda qa=qa, qb=qb, a=a, b=b: np.trace(as_op(qa, a).conj().T @ as_op(qb, b))
+                       if (qa.isoper or qb.isoper) else
+                       (np.conj if (qa.isket and qb.isbra) else (lambda z: z))(
+                           (vec(qa, a).conj().T @ vec(qb, b))[0, 0]))
+                key = ("overlap", json.dumps(sa), json.dumps(sb))
+            elif op == "matel":
+                so = mk(rng.choice(["oper", "oper", "oper", "super", "ket"]))
+                sbr = derive(so, rng.choice(["bra", "ket"]))
+                if sbr[0] and rng.random() < 0.7 and isinstance(so[0][0][0], int):
+                    # bra side must carry the operator's row labels
+                    h = so[0][0]
+                    sbr = ([list(h), ones(h)], None) if rng.random() < 0.5 else ([ones(h), list(h)], None)
+                sk = derive(so, rng.choice(["ket", "ket", "bra"]))
+                (qo, o), (qbr, br), (qk, k) = qobj(so), qobj(sbr), qobj(sk)
+                if qo is None or qbr is None or qk is None:
+                    continue
+                coq = ("match %s, %s, %s with Ok x, Ok y, Ok z => qobj_matrix_element x y z "
+                       "| _, _, _ => ORaise OutOfFuel end"
+                       % (dims_expr(so[0], so[1], True), dims_expr(sbr[0], sbr[1], True),
+                          dims_expr(sk[0], sk[1], True)))
+                th = (lambda qo=qo, qbr=qbr, qk=qk: qo.matrix_element(qbr, qk))
+                ref = (lambda qbr=qbr, br=br, o=o, qk=qk, k=k:
+                       (vec(qbr, br).conj().T @ o @ vec(qk, k))[0, 0])
+                key = ("matrix_element", json.dumps(so), json.dumps(sbr), json.dumps(sk))
+            else:
+                ss = mk(rng.choice(["oper", "super", "super", "super", "ket"]))
+                so = derive(ss, rng.choice(["ket", "oper", "oper", "bra", "super"]))
+                (qs, sarr), (qo, o) = qobj(ss), qobj(so)
+                if qs is None or qo is None:
+                    continue
+                coq = ("match %s, %s with Ok x, Ok y => qobj_call true 8%%nat x y "
+                       "| _, _ => ORaise OutOfFuel end"
+                       % (dims_expr(ss[0], ss[1], True), dims_expr(so[0], so[1], True)))
+                th = (lambda qs=qs, qo=qo: qs(qo))
+
+                def ref(qs=qs, qo=qo, sarr=sarr, o=o):
+                    if qs.isoper:
+                        return sarr @ o
+                    x = o @ o.conj().T if qo.isket else o
+                    out = sarr @ x.reshape(-1, 1, order="F")
+                    rows = int(np.prod(qs.dims[0][0]))
+                    return out.reshape((rows, -1), order="F")
+                key = ("call", json.dumps(ss), json.dumps(so))
+        except Exception:
+            continue
+        exprs.append("match %s with ODims d => (1%%nat, Some (observe_dims d), ValueError) "
+                     "| ONumberResult => (2%%nat, None, ValueError) | ORaise e => (3%%nat, None, e) end" % coq)
+        thunks.append((th, ref))
+        keys.append(key)
+    vals = vlib.coq_eval_values("cases_C02s", HEADER, exprs, chunk=300)
+    for key, (th, ref), v in zip(keys, thunks, vals):
+        pv = vlib.parse_coq_value(v)
+        mo = ("dims", observe_model(pv[1][1])) if pv[0] == 1 else (("number",) if pv[0] == 2 else ("raise",))
+        im, r = outcome_impl(th)
+        if im[0] == "raise":
+            im = ("raise",)
+        ctx.count_case(("qobj",) + key)
+        ctx.cov["traces_validated_against_impl"] += 1
+        if im != mo:
+            ctx.violation("corr:qobj." + key[0], "dims-outcome",
+                          "Qobj.%s: accepted / rejected / result labels differ from composing the "
+                          "operands' labels" % key[0],
+                          {"case": key, "impl": im, "model": mo}, found_input=True)
+            continue
+        if im[0] in ("dims", "number"):
+            want = np.array(ref())
+            got = r.full() if im[0] == "dims" else np.array(r)
+            if got.shape != want.shape or not np.allclose(got, want, atol=1e-9):
+                ctx.violation("qobj." + key[0], "matrix",
+                              "value of Qobj.%s is not the NumPy expression on the operands" % key[0],
+                              {"case": key, "got": np.array2string(got), "want": np.array2string(want)})
 
 
 # ------------------------------------------------------------------ oracle
